@@ -354,7 +354,8 @@ Definition on_write (m : mst) (origin : Z) (o : sop) (acked : bool) (s s' : stor
       let m := match sh with
                | Some d =>
                    let keys := map fst d in
-                   let m := if subset (aget [] (m_keys m) id) keys then m else add_viol m 18 3 id in
+                   (* keys never lost; clause 7 when the write is not an action's Set (a watcher, the commander) *)
+                   let m := if subset (aget [] (m_keys m) id) keys then m else add_viol m 18 (if Z.eqb origin 0 then 3 else 7) id in
                    let m := set_keys m (aset (m_keys m) id keys) in
                    let m := fset m 6 id (if acked then 0 else 1) in
                    if acked then m else fset m 9 id 1
